@@ -1681,6 +1681,7 @@ def run_property(chk: Check, pid: str, props: str, generated, nontrivial, scenar
                         'one live TrajectoryStore handle at a time (model restriction); every trajectory fits the cache alone',
                         'a file-system call is atomic (a failure is injected in FRONT of a call)']
     chk.coq_props(props)
+    link_store_protocol(chk)
     cfg = detect_cfg(chk)
     chk.notes['tree_behaviour'] = {k: ('repaired' if v else 'as found') for k, v in cfg.items()}
     hists = load_corpus(pid) + list(scenarios) + generated
@@ -1691,8 +1692,27 @@ def run_property(chk: Check, pid: str, props: str, generated, nontrivial, scenar
         extra(chk, cfg)
 
 
+def link_store_protocol(chk: Check):
+    """Static tie: regenerate the protocol facts from trajectories/store.py (fail-closed, one obligation per method) and
+    re-prove coq/link/Store_Link.v against them."""
+    from harness.common import REPO
+    from translator import store_extract
+    chk.trusted.append('translator/store_extract.py (statement shapes of the store protocol methods)')
+    text, status = store_extract.extract_store_protocol(REPO / 'src/AEIC/trajectories/store.py')
+    for m, st in status.items():
+        chk.obligations.append({'name': f'extract:trajectories/store.py:{m}', 'ok': st == 'ok'})
+        if st != 'ok':
+            chk.broken(f'extract:trajectories/store.py:{m}', st)
+    if text is None:
+        return False
+    if chk.coq_compile_gen('Store_Extracted', text) is None:
+        return False
+    return chk.coq_link('Store_Link.v')
+
+
 def replay_property(chk: Check, rp, props: str, nontrivial):
     chk.coq_props(props)
+    link_store_protocol(chk)
     cfg = detect_cfg(chk)
     case = rp.get('case') or {}
     if 'ops' in case:
